@@ -37,7 +37,8 @@ Definition PT (l : list seg) : pattern := mkPattern l true.
 
 Definition Rq (m : N) (h : option N) (hs : list (N * N)) (p : string) : req := mkReq m h hs (b p).
 
-Inductive case := K (a : app) (rs : list req).
+(* the builder calls on `App::new()` (the table is what they register) and the requests *)
+Inductive case := K (calls : list bld) (rs : list req).
 
 (* ----------------------------------------------------------------------------- rendering *)
 Fixpoint str (l : bytes) (acc : string) : string :=
@@ -114,7 +115,8 @@ Fixpoint node_texts (c : node) (acc : string) : string :=
 
 Definition run_C09 (c : case) : V :=
   match c with
-  | K a rs =>
+  | K calls rs =>
+      let a := build_app calls in
       (* the F26 class of the table (RouteSpec.Known_F26), diffed against the harness's classifier *)
       let k := (if existsb (bad_in false) (a_children a) then "K" else "k")%string in
       VH (fold_right node_texts (ch "#" (ch k (run_reqs a rs))) (a_children a))
